@@ -552,8 +552,8 @@ def run_flo(case, ctls, root):
     fails = []
     text = flo_text(case, root)
     built = build_text(text)
-    if not built.ok:
-        return None, [("harness-flo-build-failed", "FloScript of the case did not build: %r\n%s" % (built.exc, text))]
+    if not built.ok:     # a harness error (exit 2), never a verdict about the property
+        raise RuntimeError("C22 harness: FloScript of the case did not build: %r\n%s" % (built.exc, text))
     house = built.houses[0]
     store = house.store
     store.changeStamp(0.0)
@@ -691,10 +691,16 @@ def _bucket(n):
 # ======================================================================================
 # generator
 
+VALS = [0, 1, 2, 3, "a", "b"]
+ELEMS = [0, 1, 7, "e", "f", "hello"]
+DECK_ENTRIES = [{"n": 1}, {"n": 2, "e": 3}, {"e": "a"}, {"n": 0, "e": 0, "d": 5}, {"d": 1}, {"n": "b", "d": 2},
+                {"e": 2, "n": 3}, {"n": 3, "e": "a", "d": 0}]
+
+
 def case_strategy(family):
     from hypothesis import strategies as st
-    vals = st.sampled_from([0, 1, 2, 3, "a", "b"])
-    elems = st.sampled_from([0, 1, 7, "e", "f", "hello"])
+    vals = st.sampled_from(VALS)
+    elems = st.sampled_from(ELEMS)
 
     @st.composite
     def build(draw):
@@ -728,19 +734,25 @@ def case_strategy(family):
                     lgs.append({"tag": "t%d" % si, "share": si, "fields": fsel})
                 logs.append({"rule": rule, "loggees": lgs})
 
-        ops = []
+        # finite table of concrete write operations: one draw per operation
+        table = []
         for si in range(nnormal):
             pool = fieldsof[si]
-            ops.append(st.tuples(st.just("upd"), st.just(si), st.sampled_from(pool), vals).map(list))
-            ops.append(st.tuples(st.just("upd"), st.just(si), st.sampled_from(pool[:1]), vals).map(list))
-            ops.append(st.tuples(st.just("chg"), st.just(si), st.sampled_from(pool), vals).map(list))
-            ops.append(st.tuples(st.just("now"), st.just(si)).map(list))
+            for v in VALS:
+                for fld in pool:
+                    table.append(["upd", si, fld, v])
+                    table.append(["chg", si, fld, v])
+                table.append(["upd", si, pool[0], v])      # bias: the first (always logged by default) field
+            table.append(["now", si])
+            table.append(["now", si])
         if s_idx is not None:
-            ops.append(st.tuples(st.just("app"), st.just(s_idx), st.sampled_from(["q", "r"]), elems).map(list))
+            for e in ELEMS:
+                table.append(["app", s_idx, "q", e])
+                table.append(["app", s_idx, "r", e])
         if d_idx is not None:
-            entry = st.dictionaries(st.sampled_from(["n", "e", "d"]), vals, min_size=1, max_size=3)
-            ops.append(st.tuples(st.just("push"), st.just(d_idx), entry).map(list))
-        op = st.one_of(*ops)
+            for entry in DECK_ENTRIES:
+                table.append(["push", d_idx, entry])
+        op = st.sampled_from(table)
         nt = draw(st.integers(3, 14))
         ticks = []
         for k in range(nt):
@@ -778,8 +790,8 @@ def work(shard, seed, tier):
     acc = Acc()
     family = shard["family"]
     if tier == "quick":
-        n = 180 if family == "direct" else 110
-        budget = 18
+        n = 240 if family == "direct" else 150
+        budget = 22
     else:
         n = 3000 if family == "direct" else 1500
         budget = 420
@@ -788,9 +800,32 @@ def work(shard, seed, tier):
         fails, nontrivial, classes = check_case(case)
         return Outcome(fails, nontrivial=nontrivial, classes=classes, key=case, sample=case)
 
-    campaign(acc, case_strategy(family), execute, n, seed * 1000 + shard["i"], budget=Budget(budget),
-             shrink_examples=200)
+    campaign(acc, case_strategy(family), execute, n, seed * 1000 + shard["i"], budget=Budget(budget), shrink=False)
+    _shrink_failures(acc)
     return acc
+
+
+def _shrink_failures(acc, seconds=2.0, max_sigs=3):
+    """Structural (tick list / op list) delta debugging of the first case of each signature."""
+    from vp.core.hyp import shrink_json
+    from vp.core.acc import Failure, jsonable, unjson
+    for sig in sorted(acc.failures)[:max_sigs]:
+        f0 = acc.failures[sig][0]
+        case = unjson(f0.case)
+
+        def still(c, sig=sig):
+            if not (isinstance(c, dict) and c.get("ticks") and c.get("logs") and c.get("shares")):
+                return False
+            try:
+                return any(s == sig for s, _ in check_case(c)[0])
+            except Exception:
+                return False
+        small = shrink_json(case, still, seconds)
+        if small != case:
+            what = [w for s, w in check_case(small)[0] if s == sig]
+            if what:
+                acc.failures[sig].insert(0, Failure(sig, "(shrunk) " + what[0], jsonable(small)))
+                del acc.failures[sig][3:]
 
 
 def replay(case):
